@@ -158,6 +158,35 @@ def run_retained(ctx):
     m.close()
 
 
+def run_generic_instances(ctx):
+    """generic aliases and generic records instantiated, in one namespace, with type arguments that a target language spells alike although they are
+    encoded differently: vectors with and without a fixed length, arrays of unknown rank / known rank / fixed shape, int32 and an alias of it"""
+    i32, f32t = P("int32"), P("float32")
+    args = [("DynVec", V(i32)), ("Fix3", V(i32, 3)), ("Fix2", V(i32, 2)), ("AnyRank", A(f32t, None)), ("Rank2", A(f32t, 2)), ("Rank1", A(f32t, 1)), ("Fixed23", A(f32t, ((None, 2), (None, 3)))),
+            ("Fixed32", A(f32t, ((None, 3), (None, 2)))), ("Plain", i32)]
+    gens = [Al("GiLabeled", M(P("string"), TP("T")), ("T",)), Al("GiMany", V(TP("T")), ("T",)), Al("GiMaybe", Opt(TP("T")), ("T",)), Rec("GiBox", [("content", TP("T")), ("n", P("uint8"))], ("T",)),
+            Al("GiBoxes", V(N("GiBox", (TP("T"),))), ("T",))]
+    protos = []
+    for g in ("GiLabeled", "GiMany", "GiMaybe", "GiBox", "GiBoxes"):
+        protos.append(Proto("Gp" + g[2:], [(nm[0].lower() + nm[1:], N(g, (t,))) for nm, t in args] + [("tail", S(N(g, (args[1][1],))))]))
+    pkg = Pkg("GenInst", gens + protos)
+    m = rt.prepare_model(ctx, "geninst", pkg, ["plain"])
+    if m is None:
+        raise common.Inconclusive("generic-instances model did not build")
+    c = m.codec
+    for proto in pkg.protocols():
+        for k in range(3):
+            vals = values.ValueGen(c, rng("C01gi", proto.name, k), quiet_nan_only=True, max_len=4).steps(proto, stream_len=2)
+            data = c.encode_stream(proto, m.schema(proto.name), vals)
+            ctx.case(("generic-instances", proto.name, k))
+            for ep in (rt.CppEndpoint(m, "plain"), rt.PyEndpoint(m), rt.PyEndpoint(m, mode="list")):
+                r = ep.copy(proto.name, "bin", "bin", data)
+                ctx.ev()
+                ctx.count("generic-instances." + ep.name)
+                rt.judge(ctx, m, proto, vals, data, r, ep.name, "bin", "generic instances %s set %d" % (proto.name, k), {"generic_instances": True})
+    m.close()
+
+
 def run_wide(ctx, flavors):
     """shapes whose *size* crosses an encoding boundary: a union with 130 alternatives (tags >= 128 need two varint bytes), also nullable
     (tag shifted by one), as a step, as stream items and as vector elements"""
@@ -213,6 +242,7 @@ def run(ctx):
     run_big(ctx, ["plain", "asan"])
     run_wide(ctx, ["plain"])
     run_retained(ctx)
+    run_generic_instances(ctx)
     cxx.prune_cache()
 
 
